@@ -143,9 +143,15 @@ pub fn judge(_part: &str, case: &Case, tally: &mut Tally) -> Verdict {
 }
 
 pub fn gen_history(src: &mut Src, big: bool) -> Case {
+    gen_history_x(src, big, true)
+}
+
+/// `xtwinops`: include XTWINOPS resize requests (only for judges that do not track the size)
+pub fn gen_history_x(src: &mut Src, big: bool, xtwinops: bool) -> Case {
     let (cols, rows) = if big { gen::any_size(src) } else { gen::small_size(src) };
     let limit = gen::limit(src);
     let mut g = G::new(cols, rows).with_raw(6);
+    g.xtwinops = xtwinops;
     let n = src.range(1, 14);
     let mut case = Case::new(cols, rows, limit);
     case.calls = gen::history(src, &mut g, n, 15, 12, 12, big);
@@ -166,6 +172,7 @@ pub fn gen_garbage(src: &mut Src, _i: usize) -> Case {
     let (cols, rows) = gen::any_size(src);
     let mut g = G::new(cols, rows);
     g.raw = true;
+    g.xtwinops = true;
     g.w = [0; gen::NCAT];
     g.w[gen::CAT_RAW] = 10;
     g.w[gen::CAT_TEXT] = 2;
